@@ -82,6 +82,8 @@ class World:
             cls = getattr(importlib.import_module("pybrops.breed.prot.mate." + n_), n_)
             o = cls()
             self.prebuilt[n_] = {"orig": o, "copy": _copy.copy(o), "deepcopy": _copy.deepcopy(o)}
+        self.shared_record = []
+        self.shared_problem = self.problem("Subset", 1, self.shared_record)     # one problem object used by several runs
         o = G_E_Phenotyping(self.mod, 2, 2, 1.0, 0.5, 1.0)
         self.prebuilt["G_E_Phenotyping"] = {"orig": o, "copy": _copy.copy(o), "deepcopy": _copy.deepcopy(o)}
 
@@ -118,7 +120,7 @@ def enc_of(name):
 
 def component(name):
     """callable(world, rng) -> output; rng None = library global generator."""
-    if "@" in name:
+    if "@" in name and not name.startswith("SteepestDescent"):
         base, variant = name.split("@")
 
         def f(w, rng, _b=base, _v=variant):
@@ -171,6 +173,13 @@ def component(name):
             import pybrops.core.random.prng as prng
             return [g.random(3) for g in prng.spawn(3)] + [prng.spawn().random(2)]
         return f
+    if name == "SteepestDescentSubsetHillClimber@shared-problem":
+        def f(w, rng):
+            from pybrops.opt.algo.SteepestDescentSubsetHillClimber import SteepestDescentSubsetHillClimber
+            del w.shared_record[:]
+            s = SteepestDescentSubsetHillClimber(rng=rng).minimize(w.shared_problem)
+            return (s, list(w.shared_record))
+        return f
     if name == "SteepestDescentSubsetHillClimber":
         def f(w, rng):
             from pybrops.opt.algo.SteepestDescentSubsetHillClimber import SteepestDescentSubsetHillClimber
@@ -215,11 +224,13 @@ ACCEPT_RNG = MATE + ["G_E_Phenotyping"] + CFGS + ["sus", "tiled_choice", "axis_s
 # is not something the property states (counted in ASSUME, not asserted)
 PREBUILT = [m + "@" + v for m in ("TwoWayCross", "FourWayDHCross", "SelfCross") for v in ("orig", "copy")] + \
            ["G_E_Phenotyping@" + v for v in ("orig", "copy", "deepcopy", "deepcopy")]
-GLOBAL_ONLY = ["spawn", "apply_jitter", "EMBV"] + PREBUILT
+GLOBAL_ONLY = ["spawn", "apply_jitter", "EMBV"] + PREBUILT + ["SteepestDescentSubsetHillClimber@shared-problem"] * 3
 ALL = ACCEPT_RNG + GLOBAL_ONLY
 
 
 def site_of(name):
+    if name.startswith("SteepestDescent") and "@" in name:
+        return "SteepestDescentSubsetHillClimber.minimize on a problem object shared between runs"
     if "@" in name:
         b, v = name.split("@")
         return "%s.%s via %s made before seeding" % (b, "phenotype" if b == "G_E_Phenotyping" else "mate", {"orig": "object", "copy": "copy.copy", "deepcopy": "copy.deepcopy"}[v])
@@ -261,8 +272,11 @@ def gen_program(g):
     return [str(x) for x in g.choice(ALL, n, p=weights)]
 
 
-def run_program(prog, wseed, seed, prefix):
-    """Execute prefix junk, seed the library, run the program with the global generator; returns per-call digests."""
+def run_program(prog, wseed, seed, prefix, world=None, keep=None):
+    """Execute prefix junk, seed the library, run the program with the global generator; returns per-call digests.
+    ``world``: re-use these long-lived objects (populations, protocol objects, problem objects) instead of building fresh ones -
+    'whatever was executed before the re-seeding' then includes an earlier execution of the same program on the same objects;
+    counters of the pre-built mating protocols (documented state that names the progeny) are reset to their initial values."""
     import pybrops.core.random.prng as prng
     pg = numpy.random.Generator(numpy.random.PCG64(prefix))
     import pybrops.core.random.prng as prng
@@ -278,7 +292,15 @@ def run_program(prog, wseed, seed, prefix):
             component("TwoWayCross")(w0, None); component("sus")(w0, None)
         except Exception:
             pass
-    w = World(wseed)          # built before seeding: holds protocol objects (and copies of them) made in the old history
+    if world is None:
+        w = World(wseed)      # built before seeding: holds protocol objects (and copies of them) made in the old history
+    else:
+        w = world
+        for n_ in MATE:
+            for o in w.prebuilt[n_].values():
+                o.progeny_counter = 0; o.family_counter = 0
+    if keep is not None:
+        keep.append(w)
     prng.seed(seed)
     out = []
     taps = []
@@ -303,8 +325,16 @@ def case_reseed(ctx, c):
     if c % 23 == 0:
         ctx.sample({"seed": seed, "program": prog})
     a, ta = run_program(prog, wseed, seed, 2 * int(g.integers(1000)))
-    b, tb = run_program(prog, wseed, seed, 2 * int(g.integers(1000)) + 1)
+    kept = []
+    b, tb = run_program(prog, wseed, seed, 2 * int(g.integers(1000)) + 1, keep=kept)
     coords = [c, "reseed"]
+    _compare(ctx, prog, seed, a, ta, b, tb, coords, "global generator")
+    # third execution on the SAME long-lived objects as the second one
+    c3, t3 = run_program(prog, wseed, seed, 2 * int(g.integers(1000)), world=kept[0])
+    _compare(ctx, prog, seed, b, tb, c3, t3, coords, "global generator, same objects re-used after re-seeding")
+
+
+def _compare(ctx, prog, seed, a, ta, b, tb, coords, icls):
     diverged = False
     for i, name in enumerate(prog):
         if a[i].startswith("EXC") and b[i].startswith("EXC"):
@@ -314,7 +344,7 @@ def case_reseed(ctx, c):
             ctx.sumnote("downstream divergences (not judged)")   # a later call may differ only because an earlier one consumed the stream differently
             continue
         part = "output" if a[i].split("/")[0] != b[i].split("/")[0] else "state the global streams are left in"
-        ctx.check("C08.reseed", same, site_of(name), "identical output after identical re-seeding", "global generator",
+        ctx.check("C08.reseed", same, site_of(name), "identical output after identical re-seeding", icls,
                   what="%s: %s differs between two runs after seed(%d) (fresh-entropy requests during the call: %d/%d)" % (site_of(name), part, seed, ta[i], tb[i]),
                   witness={"seed": seed, "program": prog, "call": i, "digests": [a[i], b[i]], "entropy_requests": [ta[i], tb[i]]}, coords=coords)
         if not same:
